@@ -142,30 +142,38 @@ func gposStr(S gpos, s string) gpos {
 
 // WriterEmpty: nothing written, nothing deferred (exported for the contracts of packages compiler and debug).
 func WriterEmpty(cw *CodeWriter) bool {
-	return len(cw.pendings) == 0 && eq(cw.Builder, strings.Builder{}) && cw.lastByte == 0
+	return len(cw.pendings) == 0 && eq(cw.Builder, strings.Builder{}) && cw.lastByte == 0 && !cw.lastInt
 }
 
 // fuse: token-fusion automaton over the write history. A write that begins with '+' or '-' directly after a byte equal
-// to it would fuse two tokens into another one (`--`, `++`) -- inside one write the characters belong to one token.
+// to it would fuse two tokens into another one (`--`, `++`) -- inside one write the characters belong to one token --,
+// and a dot written directly after an integer literal would be taken for its fraction point (`5.x`).
 type fuseState struct {
-	last byte
-	bad  bool
+	last   byte
+	bad    bool
+	intRun bool // the last write consisted of decimal digits only (an integer literal)
+}
+
+// allDigits: a non-empty run of decimal digits.
+func allDigits(s string) bool {
+	return len(s) > 0 && forall(0, len(s), func(k int) bool { return '0' <= s[k] && s[k] <= '9' })
 }
 
 func fuseInit() fuseState { return fuseState{} }
 func fuseByte(S fuseState, c byte) fuseState {
-	return fuseState{last: c, bad: S.bad || (S.last == c && (c == '+' || c == '-'))}
+	return fuseState{last: c, bad: S.bad || (S.last == c && (c == '+' || c == '-')) || (S.intRun && c == '.'), intRun: '0' <= c && c <= '9'}
 }
 func fuseStr(S fuseState, s string) fuseState {
 	if len(s) == 0 {
 		return S
 	}
-	return fuseState{last: s[len(s)-1], bad: S.bad || (S.last == s[0] && (s[0] == '+' || s[0] == '-'))}
+	return fuseState{last: s[len(s)-1], bad: S.bad || (S.last == s[0] && (s[0] == '+' || s[0] == '-')) || (S.intRun && s[0] == '.'), intRun: allDigits(s)}
 }
 
 // NoFusion: nothing written so far fuses adjacent sign tokens, and the writer knows the last byte it wrote.
 func NoFusion(cw *CodeWriter) bool {
-	return !foldH(fuseByte, fuseStr, fuseInit(), built(cw.Builder)).bad && cw.lastByte == foldH(fuseByte, fuseStr, fuseInit(), built(cw.Builder)).last
+	return !foldH(fuseByte, fuseStr, fuseInit(), built(cw.Builder)).bad && cw.lastByte == foldH(fuseByte, fuseStr, fuseInit(), built(cw.Builder)).last &&
+		cw.lastInt == foldH(fuseByte, fuseStr, fuseInit(), built(cw.Builder)).intRun
 }
 
 // J: the source mapper's cursor is the generated position of everything written so far.
@@ -184,7 +192,7 @@ func cwInv(cw *CodeWriter) bool {
 // mapper's state. Options (PrettyPrint, IndentString, WriteSemicolons, the Mapper pointer) and the tree are not in it.
 //@ group cwFrame
 //@   requires [cw] cw != nil && cwInv(cw) && J(cw) && NoFusion(cw)
-//@   modifies cw.Builder, cw.pendings, cw.IndentLevel, cw.lastByte, cw.semiOmitted, cw.deferred
+//@   modifies cw.Builder, cw.pendings, cw.IndentLevel, cw.lastByte, cw.lastInt, cw.semiOmitted, cw.deferred
 //@   modifies cw.Mapper.generatedLine, cw.Mapper.generatedColumn, cw.Mapper.mappings, cw.Mapper.names, cw.Mapper.nameIndex[*]
 //@   ensures [cwinv@C06,C08] cwInv(cw)
 //@   ensures [J@C08] J(cw)
@@ -229,7 +237,7 @@ func here(cw *CodeWriter) gpos {
 //@ func (cw *CodeWriter) write(s, isToken)
 //@   props C08 C06 C15 C11 C14
 //@   use cwFrame
-//@   ensures [mechanism@C08,C14] fullSeq(evOpt(len(s) > 0 && isToken, evCall("(*CodeWriter).restoreSemi")), evOpt(len(s) > 0, evCall("(*CodeWriter).separateSigns")), evOpt(len(s) > 0 && isToken, evCall("(*CodeWriter).commitMapping")), evOpt(len(s) > 0 && cw.Mapper != nil, evCall("(*SourceMapper).AdvanceString"))) && implies(len(s) > 0 && isToken, callArg[byte]("(*CodeWriter).restoreSemi", 0, 1) == s[0]) && implies(len(s) > 0 && cw.Mapper != nil, callArg[string]("(*SourceMapper).AdvanceString", 0, 1) == s)
+//@   ensures [mechanism@C08,C14] fullSeq(evOpt(len(s) > 0 && isToken, evCall("(*CodeWriter).restoreSemi")), evOpt(len(s) > 0, evCall("(*CodeWriter).separateSigns")), evOpt(len(s) > 0 && isToken, evCall("(*CodeWriter).commitMapping")), evOpt(len(s) > 0, evCall("isDigits")), evOpt(len(s) > 0 && cw.Mapper != nil, evCall("(*SourceMapper).AdvanceString"))) && implies(len(s) > 0 && isToken, callArg[byte]("(*CodeWriter).restoreSemi", 0, 1) == s[0]) && implies(len(s) > 0 && cw.Mapper != nil, callArg[string]("(*SourceMapper).AdvanceString", 0, 1) == s)
 //@   ensures [pendings] eq(cw.pendings, old(cw.pendings)) && cw.IndentLevel == old(cw.IndentLevel)
 //@   ensures [no-mapping@C08] implies(cw.Mapper != nil && !(isToken && len(s) > 0 && old(cw.deferred.set)), sourcemap.NumMappings(cw.Mapper) == old(sourcemap.NumMappings(cw.Mapper)))
 //@   ensures [recorded@C08] implies(cw.Mapper != nil && isToken && len(s) > 0 && old(cw.deferred.set), sourcemap.NumMappings(cw.Mapper) == old(sourcemap.NumMappings(cw.Mapper))+1 && pointsAt(cw, old(sourcemap.NumMappings(cw.Mapper)), old(cw.deferred)) && gposStr(startOf(cw, old(sourcemap.NumMappings(cw.Mapper))), s) == here(cw))
@@ -246,7 +254,7 @@ func asiHazard(c byte) bool { return c == '(' || c == '[' || c == '+' || c == '-
 //@ func (cw *CodeWriter) restoreSemi(next)
 //@   props C06 C03 C01 C08 C11
 //@   requires [cw] cw != nil && cwInv(cw) && J(cw) && NoFusion(cw)
-//@   modifies cw.Builder, cw.lastByte, cw.Mapper.generatedColumn
+//@   modifies cw.Builder, cw.lastByte, cw.lastInt, cw.Mapper.generatedColumn
 //@   ensures [cwinv] cwInv(cw)
 //@   ensures [J@C08] J(cw)
 //@   ensures [no-fusion@C03,C01,C14] NoFusion(cw)
@@ -254,16 +262,22 @@ func asiHazard(c byte) bool { return c == '(' || c == '[' || c == '+' || c == '-
 //@   ensures [only-then@C06] implies(!(cw.semiOmitted && asiHazard(next)), eq(cw.Builder, old(cw.Builder)) && cw.lastByte == old(cw.lastByte))
 //@   ensures [no-mapping@C08] cw.Mapper == nil || sourcemap.NumMappings(cw.Mapper) == old(sourcemap.NumMappings(cw.Mapper))
 
+//@ func isDigits(s)
+//@   props C03 C01 C11 C06 C08
+//@   loop 1 invariant [run] 0 <= i && i <= len(s) && forall(0, i, func(k int) bool { return '0' <= s[k] && s[k] <= '9' })
+//@   loop 1 decreases len(s) - i
+//@   ensures [class@C03,C01] result == allDigits(s)
+
 // separateSigns writes a space exactly when the next token would fuse with the last byte written.
 //@ func (cw *CodeWriter) separateSigns(next)
 //@   props C03 C01 C08 C06 C11
 //@   requires [cw] cw != nil && cwInv(cw) && J(cw) && NoFusion(cw)
-//@   modifies cw.Builder, cw.lastByte, cw.Mapper.generatedColumn
+//@   modifies cw.Builder, cw.lastByte, cw.lastInt, cw.Mapper.generatedColumn
 //@   ensures [cwinv] cwInv(cw)
 //@   ensures [J@C08] J(cw)
 //@   ensures [no-fusion@C03,C01,C14] NoFusion(cw)
-//@   ensures [separated@C03,C01] !((next == '+' || next == '-') && cw.lastByte == next)
-//@   ensures [only-then@C06] implies(!((next == '+' || next == '-') && old(cw.lastByte) == next), eq(cw.Builder, old(cw.Builder)) && cw.lastByte == old(cw.lastByte))
+//@   ensures [separated@C03,C01] !((next == '+' || next == '-') && cw.lastByte == next) && !(next == '.' && cw.lastInt)
+//@   ensures [only-then@C06] implies(!((next == '+' || next == '-') && old(cw.lastByte) == next) && !(next == '.' && old(cw.lastInt)), eq(cw.Builder, old(cw.Builder)) && cw.lastByte == old(cw.lastByte) && cw.lastInt == old(cw.lastInt))
 //@   ensures [no-mapping@C08] cw.Mapper == nil || sourcemap.NumMappings(cw.Mapper) == old(sourcemap.NumMappings(cw.Mapper))
 
 //@ func (cw *CodeWriter) clearPending()
